@@ -82,6 +82,31 @@ func init() {
 		}
 		libEffects[n] = [2]bool{false, false}
 	}
+	// parsing/splitting helpers: results are fresh values with the obvious shape facts
+	libModels["strings.Split"] = func(tr *FnTr, x ssa.Value, args []Val, cc *ssa.CallCommon) Val {
+		tr.usedModel("strings.Split (fresh []string with at least one element)")
+		obj := tr.newObject("split")
+		na := tr.vc.Fresh("split_arr", SArr)
+		tr.st.Mem = tr.vc.Def("mem", Store(tr.st.Mem, obj, na))
+		n := tr.vc.Fresh("split_len", SInt)
+		tr.vc.Assume(And(Le(Int(1), n), Le(n, maxLen)))
+		return Val{L: []*Term{obj, Int(0), n, n}}
+	}
+	libEffects["strings.Split"] = [2]bool{false, true}
+	for _, n := range []string{"strconv.ParseUint", "strconv.ParseInt", "strconv.Atoi", "strings.Trim", "strings.TrimSpace", "strings.ToLower", "strings.ToUpper"} {
+		n := n
+		libModels[n] = func(tr *FnTr, x ssa.Value, args []Val, cc *ssa.CallCommon) Val {
+			tr.usedModel(n + " (fresh, typed result; no effect on visible memory)")
+			return tr.freshVal(tr.vname(x), x.Type(), nil)
+		}
+		libEffects[n] = [2]bool{false, true}
+	}
+	libModels["os.Exit"] = func(tr *FnTr, x ssa.Value, args []Val, cc *ssa.CallCommon) Val {
+		tr.usedModel("os.Exit does not return")
+		tr.st.Reach = tFalse
+		return Val{}
+	}
+	libEffects["os.Exit"] = [2]bool{false, false}
 	libModels["strings.HasPrefix"] = func(tr *FnTr, x ssa.Value, args []Val, cc *ssa.CallCommon) Val {
 		tr.usedModel("strings.HasPrefix (pure, verdict unconstrained)")
 		return Val{L: []*Term{tr.vc.Fresh("hasprefix", SBool)}}
